@@ -87,6 +87,40 @@ def run_main(argv, stdin=b'', extra_env=None, timeout=120, cwd=None):
         return None, e.stdout or b'', e.stderr or b''
 
 
+def run_main_slow_stdin(argv, pieces, extra_env=None, timeout=120):
+    """main.py fed through a pipe by a producer that takes its time: pieces = [(bytes, seconds to wait *before* writing them)];
+    returns (returncode, stdout, stderr) like run_main"""
+    import threading, time
+    p = subprocess.Popen([PY, MAIN] + list(argv), stdin=subprocess.PIPE, stdout=subprocess.PIPE, stderr=subprocess.PIPE, env=base_env(extra_env))
+
+    def feed():
+        try:
+            for data, delay in pieces:
+                if delay:
+                    time.sleep(delay)
+                p.stdin.write(bytes(data))
+                p.stdin.flush()
+            p.stdin.close()
+        except (BrokenPipeError, ValueError, OSError):
+            pass
+    bufs = {}
+
+    def drain(name, f):
+        bufs[name] = f.read()
+    ts = [threading.Thread(target=feed, daemon=True), threading.Thread(target=drain, args=('out', p.stdout), daemon=True),
+          threading.Thread(target=drain, args=('err', p.stderr), daemon=True)]
+    for t in ts:
+        t.start()
+    try:
+        p.wait(timeout=timeout)
+        for t in ts:
+            t.join(timeout=10)
+        return p.returncode, bufs.get('out', b''), bufs.get('err', b'')
+    except subprocess.TimeoutExpired:
+        p.kill()
+        return None, b'', b''
+
+
 def real_gdb():
     for p in ('/usr/bin/gdb', '/usr/local/bin/gdb'):
         if os.path.exists(p):
